@@ -316,7 +316,9 @@ fn amount(rng: &mut Rng) -> String {
 }
 
 fn gen_rune_id(rng: &mut Rng) -> RuneIdRef {
-  match rng.below(14) {
+  match rng.below(16) {
+    14 => RuneIdRef::ThisBlock(0),
+    15 => RuneIdRef::ThisBlock(rng.below(3) as u32),
     0..=4 => RuneIdRef::Held(rng.below(16) as u32),
     5..=8 => RuneIdRef::Known(rng.below(16) as u32),
     9..=10 => RuneIdRef::Zero,
